@@ -43,9 +43,9 @@ def gen_case(r, exceptions=False, small=True):
     glimit = r.choice([1, 1, 2, 3, 0, 100])
     gthrow = -1
     inst = max(1, min(numT, max(1, 1 if bare else glimit)))
-    # poolLoadFactor_: large (no load-inlining) or small (tasks run inline as soon as that many are pending); never below
-    # inst - 1: then a generator instance would run inline inside execute() (see ESCAPE in props/C29.py)
-    plf = r.choice([32 * numT, 32 * numT, inst - 1, inst, inst + 1])
+    # poolLoadFactor_: large (no load-inlining) or small (tasks run inline as soon as that many are pending; below inst - 1 a
+    # generator instance runs inline inside execute())
+    plf = r.choice([32 * numT, 32 * numT, 0, inst - 1, inst, inst + 1])
     stages = [gen_stage(r, n, i == nst - 1, exceptions) for i in range(nst)]
     if exceptions:
         if r.random() < 0.2:
@@ -158,13 +158,6 @@ def has_throw(c):
     return c['gthrow'] >= 0 or any(s['throws'] for s in c['stages'])
 
 
-def hang_domain(c):
-    return has_throw(c) and ninst(c) > 1
-
-
-def escape_domain(c):
-    return has_throw(c) and c['plf'] < ninst(c) - 1
-
 
 def mk_case(numT, plf, nworkers, glimit, n, gthrow, stages, budget, sched, dep0=0, bare=0):
     return {'numT': numT, 'plf': plf, 'nworkers': nworkers, 'dep0': dep0, 'bare': bare, 'glimit': glimit, 'n': n, 'gthrow': gthrow,
@@ -175,7 +168,8 @@ def st(kind, limit, drops=(), throws=()):
     return {'kind': kind, 'limit': limit, 'drops': list(drops), 'throws': list(throws)}
 
 
-# deterministic witnesses of the known findings (the first two are the runs of C29_refuted / C29_hang_refuted)
+# deterministic witness of the remaining known finding (the run of C29_refuted) and the former witnesses of the two repaired ones
+# (C29_hang_regression, C29_escape_regression), replayed first on every run
 WIT_LEAK = mk_case(1, 32, 1, 1, 2, -1, [st('s', 4, (), (1,))], 60, [0] * 60)
 WIT_HANG = mk_case(2, 64, 1, 2, 1, -1, [st('s', 1, (), (0,))], 60, [0] * 60)
 WIT_ESCAPE = mk_case(3, 0, 1, 3, 3, 0, [st('s', 1)], 60, [0] * 60)
@@ -190,9 +184,8 @@ def run_lockstep(ctx, exe, cases):
     for c, o in zip(cases, outs):
         p = parse_out(o)
         if p is None or 'error' in p:
-            if escape_domain(c):
-                continue          # undefined behaviour in the real code (known finding, replayed separately)
-            ctx.broken.append('lockstep harness output unreadable for %s: %s' % (line_of(c)[:200], (o or '')[:200]))
+            ctx.violation('the real pipeline crashed or produced no result on %s: %s' % (line_of(c)[:200], (o or '')[:200]),
+                          {'case': line_of(c), 'output': o, 'cmd': 'echo "<case>" | build/harness/h_pipeline-*'})
             continue
         kept.append((c, p, o))
         terms.append(term_of(c, p))
